@@ -356,3 +356,9 @@ def test_fixed_F35_lrtdp_ignores_outcomes_listed_with_probability_zero():
     for init, succ in (({'start': 1.0}, {'goal': 1.0, 'pit': 0.0}), ({'start': 1.0, 'pit': 0.0}, {'goal': 1.0})):
         res = LRTDP(heuristic=lambda s: 0, seed=0, iterations=500).plan_on(_pit_mdp(init, succ))
         assert res.solved['start'] and res.initial_value == pytest.approx(-1.0)
+
+
+def test_fixed_F38_softmax_sampler_at_a_small_temperature():
+    from msdm.algorithms.tdlearning import epsilon_softmax_sample
+    assert epsilon_softmax_sample({'left': -9.0, 'right': -8.0}, 0.0, 0.01, random.Random(0)) == 'right'
+    assert epsilon_softmax_sample({'left': 900.0, 'right': 800.0}, 0.0, 0.01, random.Random(0)) == 'left'
